@@ -113,6 +113,7 @@ pub fn small(ctx: &mut Ctx, ms: u8, d: u8, literal: bool) {
         }
     });
     let bin_of = |a: u64, b: u64| table[idx(a, b)].load(Ordering::Relaxed);
+    let t_a = t0.elapsed().as_secs_f64();
 
     // ---- phase B: one representative feature per bin id; the all-bins index ---------------------
     let mut rep: Vec<Option<(u64, u64)>> = vec![None; nb];
@@ -168,6 +169,7 @@ pub fn small(ctx: &mut Ctx, ms: u8, d: u8, literal: bool) {
         }
     }
 
+    let t_b = t0.elapsed().as_secs_f64();
     // ---- phase C: every region ------------------------------------------------------------------
     let n_regions = AtomicU64::new(0);
     let obligations = AtomicU64::new(0);
@@ -346,6 +348,10 @@ pub fn small(ctx: &mut Ctx, ms: u8, d: u8, literal: bool) {
         }
     });
 
+    let t_c = t0.elapsed().as_secs_f64();
+    if std::env::var_os("C17_TIMING").is_some() {
+        eprintln!("[C17] {name}: phase A {t_a:.1}s, B {:.1}s, C {:.1}s", t_b - t_a, t_c - t_b);
+    }
     // ---- literal double loop (small N): must agree with the rewriting ---------------------------
     let mut literal_pairs = 0u64;
     let keep: Vec<Vec<u64>> = keep.into_iter().map(|m| m.into_inner().unwrap()).collect();
@@ -439,6 +445,7 @@ pub fn small(ctx: &mut Ctx, ms: u8, d: u8, literal: bool) {
         extra,
         found: found.into_custom(),
         wall_s: t0.elapsed().as_secs_f64(),
+        ..Default::default()
     });
 }
 
@@ -615,5 +622,6 @@ pub fn large(ctx: &mut Ctx, ms: u8, d: u8) {
         extra,
         found: found.into_custom(),
         wall_s: t0.elapsed().as_secs_f64(),
+        ..Default::default()
     });
 }
